@@ -7,6 +7,7 @@ func init() {
 		ID:    "C04",
 		Title: "Variables are block scoped, type stable, and 'loop' is reserved",
 		Rules: []string{
+			"R-SHARED-RW: no package-level variable is both written and read on the render paths (state kept between calls: a shared environment for data-less renders, a cache of converted data or parsed programs)",
 			"R-ERRDROP: every error-typed result on the render path (in particular of Env.Set) is consumed",
 			"R-SCOPE: every nested block (@if branches, loop bodies and their @else, component block) is evaluated in NewEnclosedEnv(env); only NewEnv/Set/SetLoopVar write a scope and only their own; Set's store is dominated by the reserved-name test and the chain-wide type test; Get falls back to the enclosing scope exactly when the name is absent; the loop object is bound on the loop's own scope; data is bound through Set",
 		},
@@ -14,6 +15,7 @@ func init() {
 		NotDecided:  "TODO",
 		Assumptions: trustedBase,
 		Run: func(m *Model, s *Sink) {
+			m.RunSharedWrites(s, "R-SHARED-RW", m.Roots().Render, "history") // what one render leaves behind must not reach the next (a shared environment for data-less calls, a cache of bound data, a memo of parsed strings)
 			r := m.Roots()
 			var fns []*ssa.Function
 			for _, fn := range m.reachableFns(r.Render) {
